@@ -2,12 +2,45 @@
 import multiprocessing as mp
 
 
+def guard(fn, *args):
+  """Runs one harness scenario / worker.  An exception escaping the *harness code* on the tree
+  under test (the scenarios run to completion on the unchanged tree) is reported as a violation
+  of the scenario instead of crashing the checker."""
+  import traceback
+  try:
+    return fn(*args)
+  except (KeyboardInterrupt, SystemExit):
+    raise
+  except BaseException as e:   # pylint: disable=broad-except
+    frames = traceback.extract_tb(e.__traceback__)[-3:]
+    where = ' <- '.join(f'{f.filename.split("/")[-1]}:{f.lineno}' for f in reversed(frames))
+    name = getattr(fn, '__name__', str(fn))
+    return (1, 1, [dict(what=f'harness scenario {name} did not run to completion on this tree: '
+                             f'{type(e).__name__}: {str(e)[:200]} ({where}); it does on the unchanged tree',
+                        sig='harness-exception', store=name, op='', crashed=name,
+                        item=repr(args)[:400])], [])
+
+
+def _guarded(args):
+  fn, item = args
+  return guard(fn, item)
+
+
+def replay_crashed(module, case):
+  """Replay of a `crashed` case: re-run the quick tier of the module, look for the same scenario."""
+  r = module.run(tier='quick', seed=0, nproc=8)
+  for v in r.get('violations', []):
+    if v['case'].get('crashed') == case.get('crashed'):
+      return v['case']['what']
+  return None
+
+
 def pmap(fn, items, nproc):
   if nproc <= 1 or len(items) <= 1:
-    return [fn(x) for x in items]
+    return [guard(fn, x) for x in items]
   ctx = mp.get_context('fork')
   with ctx.Pool(min(nproc, len(items))) as pool:
-    return pool.map(fn, items, chunksize=1)
+    return pool.map(_guarded, [(fn, x) for x in items], chunksize=1)
 
 
 def merge(results, harness, keyfn=None, rule='', exhaustive=True, bound=''):
